@@ -454,6 +454,13 @@ func (c *CEnv) evalCall(n *CCall) (TT, error) {
 		isT := eq(T(SInt, "(tag %s)", x.S), e.typeID(t))
 		// ground instance of: a value of dynamic type T is the box of its payload
 		e.assume(tTrue, implies(isT, eq(e.box(t, e.unbox(t, x.Term)), x.Term)))
+		// payloads are values of their Go type (machine integers are in range, boxed pointers are allocated and non-nil)
+		for _, f := range e.typeFacts(e.unbox(t, x.Term), t, e.heapGet(c.cur, e.allocKey())) {
+			e.assume(tTrue, implies(isT, f))
+		}
+		if _, isPtr := t.Underlying().(*types.Pointer); isPtr {
+			e.assume(tTrue, implies(isT, T(SBool, "(not (= %s 0))", e.unbox(t, x.Term).S)))
+		}
 		return TT{isT, nil}, nil
 	case "arr":
 		// the backing array of a slice as a value
@@ -476,7 +483,11 @@ func (c *CEnv) evalCall(n *CCall) (TT, error) {
 		if x.T == nil {
 			return TT{}, fmt.Errorf("box of untyped term")
 		}
-		return TT{e.box(x.T, x.Term), nil}, nil
+		bx := e.box(x.T, x.Term)
+		e.assume(tTrue, eq(T(SInt, "(tag %s)", bx.S), e.typeID(x.T)))
+		e.assume(tTrue, eq(e.unbox(x.T, bx), x.Term))
+		e.assume(tTrue, not(eq(bx, Term{"nil_iface", SIface})))
+		return TT{bx, nil}, nil
 	case "fresh":
 		x, err := c.eval(n.Args[0])
 		if err != nil {
@@ -820,8 +831,12 @@ func (e *Enc) modKeys(m CExpr, c *Contract) []string {
 // (heap invariant; guarded by the allocatedness of the object read, so that it says nothing about unallocated cells).
 func (c *CEnv) heapValueFacts(v Term, t types.Type, ref Term) {
 	e := c.e
-	switch t.Underlying().(type) {
+	switch u := t.Underlying().(type) {
 	case *types.Pointer, *types.Slice, *types.Map, *types.Interface:
+	case *types.Basic:
+		if u.Info()&types.IsInteger == 0 {
+			return
+		}
 	default:
 		return
 	}
